@@ -51,6 +51,15 @@ func compareNodeResourcesOverwriteMD5Hash(edsName string, replicaset *datadoghqv
 }
 
 func compareWithExtendedDaemonsetSettingOverwrite(pod *corev1.Pod, node *NodeItem) bool {
+	// A pod built from an ExtendedDaemonsetSetting that is not the one applying to the node now (it was deleted,
+	// is no longer valid, no longer selects the node, or another one took over) is outdated.
+	if settingName, fromSetting := pod.GetLabels()[datadoghqv1alpha1.ExtendedDaemonSetSettingNameLabelKey]; fromSetting {
+		if node.ExtendedDaemonsetSetting == nil ||
+			node.ExtendedDaemonsetSetting.GetName() != settingName ||
+			node.ExtendedDaemonsetSetting.GetNamespace() != pod.GetLabels()[datadoghqv1alpha1.ExtendedDaemonSetSettingNamespaceLabelKey] {
+			return false
+		}
+	}
 	if node.ExtendedDaemonsetSetting != nil {
 		specCopy := pod.Spec.DeepCopy()
 		for id, container := range specCopy.Containers {
